@@ -160,7 +160,7 @@ func DataURI(dataURI []byte) ([]byte, []byte, error) {
 		for j := 0; j < len(dataURI); j++ {
 			c := dataURI[j]
 			if c == '=' || c == ';' || c == ',' {
-				if c != '=' && bytes.Equal(TrimWhitespace(dataURI[i:j]), base64Bytes) {
+				if c != '=' && (i == 0 || dataURI[i-1] != '=') && bytes.Equal(TrimWhitespace(dataURI[i:j]), base64Bytes) { // not the value of a parameter
 					if len(mediatype) > 0 {
 						mediatype = mediatype[:len(mediatype)-1]
 					}
